@@ -65,7 +65,8 @@ def job(args):
             out.append("%s %s" % (name, best))
         else:
             bad = []
-            for pid in ["C14"] + [p for p in ALL if p != "C14"]:
+            only = os.environ.get("ONLY_CHECKS")
+            for pid in (only.split(",") if only else ["C14"] + [p for p in ALL if p != "C14"]):
                 rc, o = sh("./check %s --tier quick 2>&1 | tail -3" % pid, v, env=env)
                 if "VIOLATION" in o or "tier=" not in o:
                     bad.append(pid)
